@@ -285,6 +285,32 @@ impl Check for IndexTables {
                 }
             }
         }
+        // balances handed to the state builder land at exactly the index of the (exchange, asset) they name
+        {
+            use barter_execution::balance::Balance;
+            use barter_instrument::{Keyed, asset::ExchangeAsset};
+            let picked = |i: usize| (case.mock_mask.rotate_left(3) >> (i % 8)) & 1 == 1;
+            let seeded: Vec<Keyed<ExchangeAsset<barter_instrument::asset::name::AssetNameInternal>, Balance>> = indexed
+                .assets()
+                .iter()
+                .filter(|a| picked(a.key.index()))
+                .map(|a| Keyed::new(ExchangeAsset::new(a.value.exchange, a.value.asset.name_internal.clone()), Balance::new(Decimal::from(1000 + a.key.index() as u32), Decimal::from(500 + a.key.index() as u32))))
+                .collect();
+            let n_seeded = seeded.len();
+            let built = barter::engine::state::EngineState::builder(&indexed, barter::engine::state::global::DefaultGlobalData, barter::engine::state::instrument::data::DefaultInstrumentMarketData::default)
+                .time_engine_start(crate::props::gens::ts(crate::props::gens::T0_MS))
+                .trading_state(TradingState::Disabled)
+                .balances(seeded)
+                .build();
+            for a in indexed.assets() {
+                let held = built.assets.asset_index(&a.key).balance.as_ref().map(|b| (b.value.total, b.value.free));
+                let want = picked(a.key.index()).then(|| (Decimal::from(1000 + a.key.index() as u32), Decimal::from(500 + a.key.index() as u32)));
+                if held != want {
+                    bad!("seeded-balance-index", "state built with a balance for each of {n_seeded} (exchange, asset) pairs: asset {:?} ({} on {}) holds {held:?}, seeded {want:?}", a.key, a.value.asset.name_internal, a.value.exchange);
+                }
+            }
+            rep.class_if(n_seeded > 0 && indexed.assets().iter().any(|a| picked(a.key.index()) && indexed.assets().iter().any(|b| b.key != a.key && b.value.asset.name_internal == a.value.asset.name_internal)), "seeded_balance_for_asset_name_shared_between_exchanges");
+        }
         let empty_conn = generate_empty_indexed_connectivity_states(&indexed);
         for e in indexed.exchanges() {
             for (which, table) in [("engine-state", &state.connectivity), ("generate_empty", &empty_conn)] {
